@@ -13,7 +13,8 @@
 #                                        <= 3 Owner entries and 1 BurnedToken entry at symbolic ids, symbolic counter and token id
 # Why not 100-item buckets: one iteration of `(a..b).find_map(closure)` costs CBMC ~4000 SSA steps, every read at the
 # symbolic loop index is a 100-way multiplexer, and a single property then needs > 5 min of SAT time (tried: minisat,
-# cadical, kissat, 3 markers instead of symbolic contents, stubs for the inner functions). The iterator-chain logic under
+# cadical, kissat, 3 markers instead of symbolic contents, stubs for the inner functions, a loop-free 100-item model of
+# find_bit_in_bucket as stub for owner_of: the pure "first set bit of 3200 symbolic bits" query alone exceeds 280 s). The iterator-chain logic under
 # test (bucket skipping, start offset only in the first bucket/item, id arithmetic with IDS_IN_BUCKET = 3200) does not
 # depend on the vector length; the length is what is bounded.
 cd "$(dirname "$0")"
